@@ -139,6 +139,11 @@ func (fr *FileReader) readNextBlock() (*Block, error) {
 	if err := blockHeader.Deserialize(headerBuf); err != nil {
 		return nil, err
 	}
+	// A real block is never empty. A zero size field is what a power loss leaves when the file
+	// size reached the disk but the data did not (the tail reads as zeros): the end of the data.
+	if blockHeader.CompressedSize == 0 {
+		return nil, io.EOF
+	}
 	// CompressedSize comes from the file and is not covered by any checksum: never
 	// allocate it before checking it against what is actually left of the file
 	// (a damaged or forged header could otherwise request up to 4 GiB).
@@ -165,10 +170,34 @@ func (fr *FileReader) readNextBlock() (*Block, error) {
 	// Parse block
 	block, err := ParseBlock(blockHeader, compressedData)
 	if err != nil {
+		if fr.zeroFilledTail(compressedData) {
+			return nil, io.EOF
+		}
 		return nil, err
 	}
 	block.Offset = offset
 	return block, nil
+}
+
+// zeroFilledTail reports whether the block that has just been read (and did not parse) is the
+// torn tail of an append whose file size outlived its data: the payload runs out in zero bytes and
+// nothing but zero bytes follows up to the end of the file. Nothing durable can lie behind it.
+func (fr *FileReader) zeroFilledTail(payload []byte) bool {
+	if len(payload) == 0 || payload[len(payload)-1] != 0 {
+		return false
+	}
+	buf := make([]byte, 64*1024)
+	for {
+		n, err := fr.file.Read(buf)
+		for _, b := range buf[:n] {
+			if b != 0 {
+				return false
+			}
+		}
+		if err != nil {
+			return errors.Is(err, io.EOF)
+		}
+	}
 }
 
 // BlockScanResult contains aggregated statistics from scanning block headers.
